@@ -1,6 +1,7 @@
 """C16 - The metadata store serves exactly what valid, unexpired metadata declares."""
 import ast
 
+from ..match import facts, Q
 from ..srcmodel import attr_chain, call_name, unparse, norm_text, walk_no_nested
 from ..cfg import cfg_of, raised_class
 from ..dataflow import Origins
@@ -298,8 +299,8 @@ def m4_entity_isolation(run):
     fi = m.func("mdstore.MetadataStore.attribute_requirement")
     cfg = cfg_of(fi, m)
     for r in cfg.by_kind("return"):
-        gs = {(unparse(e), p) for e, p, _ in cfg.guards(r.id)}
-        run.check(("entity_id in _md", True) in gs and
+        gs = facts(cfg, r.id)
+        run.check(Q("entity_id in _md", True) in gs and
                   unparse(r.ast.value) ==
                   "_md.attribute_requirement(entity_id, index)", "M4",
                   fi.qual + "::source", "answered by a source that holds the "
